@@ -2,6 +2,7 @@
 class with the reference semantics of the shape's abstract XML, and the two extracted grammars
 with each other."""
 import ast
+import re
 
 from ..refs import wire_semantics as W
 from . import skel, wire
@@ -9,19 +10,34 @@ from . import skel, wire
 GUARDS = ("none_guard", "len_guard", "case_type_guard", "case_none_guard")
 
 
+def canon_names(x):
+    """Escaped / case-folded variants of one piece of spec text are that text for the purposes of the grammar."""
+    if isinstance(x, str):
+        return re.sub(r"\bh_(?:replace_|escape_)+", "h_", x)
+    if isinstance(x, tuple):
+        return tuple(canon_names(y) for y in x)
+    if isinstance(x, list):
+        return [canon_names(y) for y in x]
+    return x
+
+
 def canon_write(tokens):
+    return canon_names(_canon_write(tokens))
+
+
+def _canon_write(tokens):
     out = []
     for t in tokens:
         if t[0] == "loop":
-            out.append(("loop", t[1], canon_write(t[2])))
+            out.append(("loop", t[1], _canon_write(t[2])))
         elif t[0] == "if_not_first":
-            out.append(("if_not_first", canon_write(t[1])))
+            out.append(("if_not_first", _canon_write(t[1])))
         elif t[0] == "opt":
-            out.append(("opt", tuple(t[1]), canon_write(t[2])))
+            out.append(("opt", tuple(t[1]), _canon_write(t[2])))
         elif t[0] == "dummy_guard":
-            out.append(("dummy_guard", canon_write(t[1]), t[2]))
+            out.append(("dummy_guard", _canon_write(t[1]), t[2]))
         elif t[0] == "switch":
-            out.append(("switch", t[1], [(c, canon_write(b)) for c, b in t[2]]))
+            out.append(("switch", t[1], [(c, _canon_write(b)) for c, b in t[2]]))
         else:
             out.append(t)
     return out
